@@ -182,7 +182,35 @@ def make_loader_classes():
             self._done = True
             return self._workload
 
-    return _Static
+    class _Cumulative(BaseWorkloadLoader):
+        """F4: delivers the task graphs in windows, the way the bundled AlibabaLoader does: every call adds the
+        graphs released up to `current_time + window` to one and the same Workload object and returns it; None
+        once nothing is left.  Never late: a graph is always delivered at or before its release time."""
+
+        def __init__(self, full, live, window):
+            from utils import EventTime
+
+            self._pending = sorted(full.task_graphs.items(),
+                                   key=lambda kv: (kv[1].release_time.to(EventTime.Unit.US).time, kv[0]))
+            self._live = live
+            self._window = EventTime(window, EventTime.Unit.US)
+            self.calls = 0
+            self.deliveries = 0
+
+        def get_next_workload(self, current_time):
+            self.calls += 1
+            rel = []
+            while self._pending and self._pending[0][1].release_time <= current_time + self._window:
+                rel.append(self._pending.pop(0))
+            if not self._pending and not rel:
+                return None
+            for name, tg in rel:
+                self._live.add_task_graph(tg)
+            if rel:
+                self.deliveries += 1
+            return self._live
+
+    return _Static, _Cumulative
 
 
 _LOADER_CLS = None
@@ -222,7 +250,12 @@ def build_world(world):
         _mix_units(world, b)
     if _LOADER_CLS is None:
         _LOADER_CLS = make_loader_classes()
-    b.loader = _LOADER_CLS(b.workload)
+    if world.get("loader", {}).get("kind") == "batch":
+        b.full_workload = b.workload
+        b.workload = Workload.from_job_graphs(jgs, _flags=b.flags)  # the live, growing workload
+        b.loader = _LOADER_CLS[1](b.full_workload, b.workload, world["loader"].get("window", world["loader"]["interval"]))
+    else:
+        b.loader = _LOADER_CLS[0](b.workload)
     b.scheduler = build_policy(world, b)
     b.loop_timeout = US(world["sim"]["loop_timeout"])
     b.scheduler_frequency = US(world["sim"]["scheduler_frequency"])
